@@ -123,6 +123,14 @@ class SimE(Simulator):
                     ops[-1] = ["tick", 1, ops[-1][2]]
                 ops.append(["user", rng.choice(["OpenValve", "Full"])])
                 ops.append(["tick", rng.choice([1, 2, 4]), dt])
+            elif r < 0.64:
+                # a slow command is started, the run is paused before it drives its output, and unpaused after it has
+                ops.append(["inject", rng.choice(["SlowOpen", "SlowFull"])])
+                ops.append(["tick", rng.choice([2, 3, 4]), 0.1])
+                ops.append(["user", "Pause"])
+                ops.append(["tick", rng.choice([3, 5, 8]), 0.1])
+                ops.append(["user", "Unpause"])
+                ops.append(["tick", rng.choice([1, 3]), 0.1])
         ops.append(["tick", rng.randint(2, 10), 0.1])
         ops.append(["report"])
         return {"cfg": {"recovery": False, "runlog_every": 3}, "method": method, "ops": ops}
@@ -147,6 +155,10 @@ class SimE(Simulator):
                 ops.append(["pv", name, rng.choice(gen.PV_VALUES[name])])
             elif r < 0.5:
                 ops.append(_report_op(rng))
+                if rng.random() < 0.25:
+                    name = rng.choice(list(gen.PV_VALUES))
+                    a, b = rng.sample(gen.PV_VALUES[name], 2)
+                    ops += [["report_midtick", name, a, b]] + ([["report"]] if rng.random() < 0.6 else [])
                 if rng.random() < 0.3:
                     # a value that goes away and comes back between reports of different kinds
                     name = rng.choice(list(gen.PV_VALUES))
@@ -659,6 +671,19 @@ class SimE(Simulator):
             elif k == "report":
                 by_name["C36Reports"].report(snapshot=len(op) > 1 and op[1] == "snapshot")
                 fp.append("rep")
+            elif k == "report_midtick":
+                # a tick lands while the reporter is in the middle of draining the update queue: the HOOK tag and a process
+                # value have changed (both are queued), the value changes again in the tick that lands in the drain
+                name, v1, v2 = op[1], op[2], op[3]
+                w.hw.inputs[name] = v1
+                w.engine.tags["HOOK"].set_value(w.tick_no + 1, w.clock.read())
+                w.tick(0.1)
+
+                def mid():
+                    w.hw.inputs[name] = v2
+                    w.tick(0.1)
+                by_name["C36Reports"].report(mid_tick=mid)
+                fp.append("repmid")
             elif k == "hwfault":
                 if op[1] == "read":
                     w.hw.fail_reads += op[2]
